@@ -23,6 +23,15 @@ struct Stats {
 	std::set<int64_t> clock_starts;
 	std::vector<std::string> samples;
 	uint64_t exec_hash = 0;                       /* over every incarnation of the plans judged with this object */
+	/* a memoised reference incarnation: its probes count, but what enters the execution hash is the
+	 * memoised value (mix_value), so that the hash does not depend on what a worker has seen before */
+	void add_ref(const RunResult &r)
+	{
+		incarnations++;
+		for (int i = 0; i < P_NPROBE_; i++)
+			probes[i] += r.probes[i];
+	}
+	void mix_value(int status, const std::string &out) { exec_hash = hash_str(hash_mix(exec_hash, (uint64_t)(int64_t)status), out); }
 	void add_probes(const RunResult &r)
 	{
 		incarnations++;
